@@ -4,10 +4,11 @@
     output the relation [mut_check] admits), every parameter pair and every key-manager state.
     Finiteness of reals is a side condition: a real without both bounds can overflow when the
     adaptive mutation scale is astronomically large; it is monitored on every observed value.
-    (Closure under crossover: per-node statements in C12; whole-tree proof in CrossProofs.) *)
+    Conformance is also closed under crossover ([cross_check], any number of parents, any
+    parameters), so every value the operators can build from conforming values conforms. *)
 From Coq Require Import String.
 From Coq Require Import List ZArith NArith Bool.
-From Cambrian Require Import Base.F64 SourceFacts Syntax Ops OpsProofs SpecBuild SpecProofs Codec CodecProofs MutProofs.
+From Cambrian Require Import Base.F64 SourceFacts Syntax Ops OpsProofs SpecBuild SpecProofs Codec CodecProofs MutProofs CrossProofs.
 Import ListNotations.
 
 Example keys_registered : map_keys_registered_before_next_key = true.  Proof. reflexivity. Qed.
@@ -39,6 +40,15 @@ Theorem mutation_preserves_conformance_finite :
 Proof. intros. eapply mutate_conforms_fin; eauto. Qed.
 Print Assumptions mutation_preserves_conformance_finite.
 
+(** the offspring of conforming parents conforms (with [fr = true]: including finiteness of
+    the reals, since crossover copies leaves) *)
+Theorem crossover_preserves_conformance :
+  forall fr cp pr s ps child,
+    (forall p, In p ps -> conforms_g fr s p = true) -> cross_check cp pr s ps child = true ->
+    conforms_g fr s child = true.
+Proof. exact crossover_conforms. Qed.
+Print Assumptions crossover_preserves_conformance.
+
 (** a real with both bounds is finite and inside whatever the sample was *)
 Theorem bounded_real_stays_inside :
   forall mp ms p c c' i sc a b x x',
@@ -51,4 +61,12 @@ Example closure_nonvacuous :
   let s := SAnonMap (SInt 3 fone (Some 0%Z) (Some 9%Z)) 1 (Some 1%nat) (Some 2%nat) in
   wf s = true /\ conforms s (VAnonMap [(0%N, VInt 3)]) = true /\
   mut_check fone fone s [] [([], 1%N)] (VAnonMap [(0%N, VInt 3)]) (VAnonMap [(0%N, VInt 4); (1%N, VInt 9)]) = Some [([], 2%N)].
+Proof. vm_compute. repeat split. Qed.
+
+Example crossover_closure_nonvacuous :
+  let s := SAnonMap (SInt 3 fone (Some 0%Z) (Some 9%Z)) 1 (Some 1%nat) (Some 2%nat) in
+  let half := of_bits 0x3FE0000000000000 in
+  conforms s (VAnonMap [(0%N, VInt 3)]) = true /\ conforms s (VAnonMap [(0%N, VInt 5); (4%N, VInt 7)]) = true /\
+  cross_check half half s [VAnonMap [(0%N, VInt 3)]; VAnonMap [(0%N, VInt 5); (4%N, VInt 7)]] (VAnonMap [(0%N, VInt 5); (4%N, VInt 7)]) = true /\
+  cross_check half half s [VAnonMap [(0%N, VInt 3)]; VAnonMap [(0%N, VInt 5); (4%N, VInt 7)]] (VAnonMap [(0%N, VInt 3); (4%N, VInt 7)]) = true.
 Proof. vm_compute. repeat split. Qed.
